@@ -27,8 +27,8 @@ import (
 
 var c13Lists = []scen.ListSpec{
 	{ID: 1, Text: "! list A\n||example.org^\n||example.org/ads\n||ads.example.com^\n/ex[a-z]+le\\.net/\n/ad$domain=example.org\n/ads$domain=example.org\n@@||example.org^$generichide\n##.g1\nexample.org##.s1\nexample.org#@#.g2\n##.g2\n/(/\n@@||docsite.test^$document\nmetrics.example.com^\n||cdn.test/blocked.js\n@@||news.example.org/reader/$urlblock\n||tracker.test^\n~other.net##.g3\n##.u1\n##.u2\n##.u3\n##.u4\n"},
-	{ID: 2, Text: "# list B\n0.0.0.0 example.org\n:: example.org\n127.0.0.1 hosts.test alias.test\n||blocked.test^$client=10.0.0.1\n||tagged.test^$ctag=pc\n||tagged.test^$dnstype=AAAA,important\n||rw.test^$dnsrewrite=3.3.3.3\n||rw.test^$dnsrewrite=3.3.3.3,badfilter\n||rw.test^$dnsrewrite=1.2.3.4\n||rw.test^$dnsrewrite=2.3.4.5\n@@||rw.test^$dnsrewrite=1.2.3.4\n||rw.test^$dnsrewrite=NOERROR;MX;10 mx.test\n@@||rw.test^$dnsrewrite=NOERROR;MX;10 mx.test\n/h[o0]sts\\.test/\n"},
-	{ID: -3, Text: "||blocked.test^$ctag=~pc\n@@||ads.example.com^$script\n||example.org^$third-party\n"},
+	{ID: 2, Text: "# list B\n0.0.0.0 example.org\n:: example.org\n127.0.0.1 hosts.test alias.test\n||blocked.test^$client=10.0.0.1\n||tagged.test^$ctag=pc\n||tagged.test^$dnstype=AAAA,important\n||rw2.test^$dnsrewrite=3.3.3.3\n||rw2.test^$dnsrewrite=3.3.3.3,badfilter\n||rw2.test^$dnsrewrite=4.4.4.4\n||rw2.test^$dnsrewrite=5.5.5.5\n@@||rw2.test^$dnsrewrite=4.4.4.4\n||rw.test^$dnsrewrite=1.2.3.4\n||rw.test^$dnsrewrite=2.3.4.5\n@@||rw.test^$dnsrewrite=1.2.3.4\n||rw.test^$dnsrewrite=NOERROR;MX;10 mx.test\n@@||rw.test^$dnsrewrite=NOERROR;MX;10 mx.test\n/h[o0]sts\\.test/\n"},
+	{ID: -3, Text: "*$denyallow=example.com|hosts.test,dnstype=TXT\n||blocked.test^$ctag=~pc\n@@||ads.example.com^$script\n||example.org^$third-party\n"},
 }
 
 type c13Op struct {
@@ -51,6 +51,9 @@ func c13Ops() []c13Op {
 		{name: "dns blocked.test as laptop/10.0.0.1", query: d("blocked.test", 1, "laptop", "10.0.0.1"), slot: -1},
 		{name: "dns tagged.test AAAA tags[pc]", query: d("tagged.test", 28, "", "", "pc"), slot: -1},
 		{name: "dns rw.test", query: d("rw.test", 1, "", ""), slot: 1},
+		{name: "dns rw2.test (a $badfilter pair among the rewrites)", query: d("rw2.test", 1, "", ""), slot: 6},
+		{name: "dns TXT 1.2.3.4 (an address as host name, $denyallow rule)", query: d("1.2.3.4", 16, "", ""), slot: -1},
+		{name: "dns TXT blocked.test ($denyallow rule)", query: d("blocked.test", 16, "", ""), slot: -1},
 		{name: "dns blocked.test anonymous", query: d("blocked.test", 1, "", ""), slot: -1},
 		{name: "dns tagged.test A no tags", query: d("tagged.test", 1, "", ""), slot: -1},
 		{name: "netall example.org/ads from example.org", query: q("netall", "http://example.org/ads?u=example.org", "http://example.org/", rules.TypeScript), slot: -1},
@@ -69,6 +72,7 @@ func c13Ops() []c13Op {
 		{name: "DNSRewrites() on held rw.test result", deriv: "rewrites", on: 1},
 		{name: "DNSRewritesAll() on held rw.test result", deriv: "rewritesall", on: 1},
 		{name: "DNSRewrites() on held example.org result", deriv: "rewrites", on: 0},
+		{name: "DNSRewrites() on held rw2.test result", deriv: "rewrites", on: 6},
 		{name: "GetBasicResult()+GetCosmeticOption() on held engine result", deriv: "basic", on: 2},
 		{name: "env: pooled request poisoned", deriv: "poison", on: -1},
 		{name: "env: pool emptied (GC)", deriv: "drop", on: -1},
@@ -142,7 +146,7 @@ func (m *c13Model) step(e *scen.Engines, pool *vsyncutil.Pool[rules.Request], he
 		case op.query != nil:
 			var ans string
 			switch op.slot {
-			case 0, 1:
+			case 0, 1, 6:
 				res, ok := e.DNS.MatchRequest(op.query.DNSRequest())
 				h := &c13Held{dns: res, ok: ok}
 				h.snap = h.render() // taken before any derived evaluation
@@ -244,7 +248,7 @@ func (m *c13Model) finish(e *scen.Engines, st *filterlist.RuleStorage, pool *vsy
 	for i, op := range m.ops {
 		enabled[i] = op.query != nil || op.on < 0 || held[op.on] != nil
 	}
-	for slot := 0; slot < 6; slot++ {
+	for slot := 0; slot < 8; slot++ {
 		if h := held[slot]; h != nil {
 			fmt.Fprintf(&sb, "|held%d:%s", slot, h.snap)
 		}
